@@ -287,6 +287,7 @@ bool Parser::ignoreMemberDeclaration()
             case SyntaxKind::Keyword_enum:
             case SyntaxKind::Keyword__Static_assert:
             case SyntaxKind::Keyword_ExtGNU___asm__:
+            case SyntaxKind::CloseBraceToken:
                 return false;
 
             // Skip and return.
